@@ -140,10 +140,11 @@ class SimParallel:
 # S2  SimThreadPool + zombie threads (baton passing at sys.monitoring LINE events)
 # =========================================================================================
 class JobCtx:
-    def __init__(self, site, key, rxn_keys):
+    def __init__(self, site, key, rxn_keys, row=None):
         self.site = site
         self.key = key
         self.rxn_keys = rxn_keys
+        self.row = row
         self.calls = {}
 
     def next_call(self, kind):
@@ -289,7 +290,15 @@ class SimAsyncResult:
         if name == "single_mcs" and len(self.args) >= 2 and isinstance(self.args[0], dict):
             d = self.args[0]
             rxn = "{}>>{}".format(d.get("reactants"), d.get("products"))
-            return JobCtx("mcs_job", (rxn, _cond_sig(self.kwds)), {rxn})
+            cond = _cond_sig(self.kwds)
+            occ = sim.ordinal(("mcs_job_occ", rxn, cond))  # duplicates of a reaction are separate jobs
+            rid = None
+            for k in ("id", "R-id"):
+                if k in d:
+                    rid = str(d[k])
+                    break
+            row = (sim.batch_no, rid, rxn) if rid is not None and sim.batch_no > 0 else None
+            return JobCtx("mcs_job", (rxn, cond, occ), {rxn}, row)
         if name == "find_missing_parts_pairs" and len(self.args) >= 2:
             rk = _mol_key(self.args[0])
             key = (rk, _mol_key(self.args[1], smarts=True))
@@ -330,7 +339,7 @@ class SimAsyncResult:
                     raise _real_mp.TimeoutError()
         f = sim.fault_for(ctx.site, ctx.key) if timeout is not None else None
         if f is not None and ctx.site == "mcs_job":
-            sim.fire(f, ctx.rxn_keys)
+            sim.fire(f, ctx.rxn_keys, row=ctx.row)
             hang = f["kind"] == "hang"
             q = 0.0 if hang else float(f.get("q", sim.zombie_q))
             shared = self.args[1] if isinstance(self.args[1], dict) else None
@@ -505,15 +514,17 @@ def make_rdkit_shims():
             return real_fmcs.FindMCS(mols, *a, **kw)
         params = a[0] if a else kw.get("parameters")
         ctx = sim.job
+        row = None
         if ctx is not None:
-            key = (ctx.key[0], ctx.key[1], ctx.next_call("fmcs"))
+            key = tuple(ctx.key) + (ctx.next_call("fmcs"),)
             rxns = ctx.rxn_keys
+            row = ctx.row
         else:
             key = ("nojob", sim.ordinal("fmcs_nojob"))
             rxns = None
         f = sim.fault_for("fmcs", key)
         if f is not None and f["kind"] == "raise":
-            sim.fire(f, rxns)
+            sim.fire(f, rxns, row=row)
             raise RuntimeError("simulated RDKit failure in FindMCS")
         mols = list(mols)
         mkey = None
@@ -540,7 +551,7 @@ def make_rdkit_shims():
                 _fmcs_memo[mkey] = real
         sim.advance(sim.duration(("fmcs",)))
         if f is not None and f["kind"] == "cancel":
-            sim.fire(f, rxns)
+            sim.fire(f, rxns, row=row)
             sim.advance(1.0)
             return _degrade(real, int(f.get("drop", 1)))
         return SimMCSResult(real, bool(real.canceled))
@@ -550,15 +561,17 @@ def make_rdkit_shims():
         if sim is None:
             return real_mces.FindMCES(m1, m2, opts, *a, **kw) if opts is not None else real_mces.FindMCES(m1, m2)
         ctx = sim.job
+        row = None
         if ctx is not None:
-            key = (ctx.key[0], ctx.key[1], ctx.next_call("fmces"))
+            key = tuple(ctx.key) + (ctx.next_call("fmces"),)
             rxns = ctx.rxn_keys
+            row = ctx.row
         else:
             key = ("nojob", sim.ordinal("fmces_nojob"))
             rxns = None
         f = sim.fault_for("fmces", key)
         if f is not None:
-            sim.fire(f, rxns)
+            sim.fire(f, rxns, row=row)
             if f["kind"] == "raise":
                 raise RuntimeError("simulated RDKit failure in FindMCES")
             sim.advance(1.0)
@@ -967,6 +980,19 @@ def install():
             if d.get("os") is _real_os:
                 mod.os = _os_shim
             patched.append((name, "open/os"))
+    bal = sys.modules.get("synrbl.balancing")
+    if bal is not None and callable(getattr(bal, "preprocess", None)) and not getattr(bal.preprocess, "_sim_counted", False):
+        _orig_pre = bal.preprocess
+
+        def preprocess(*a, **kw):  # observation only: one call per batch that reaches the pipeline
+            sim = Sim.current
+            if sim is not None:
+                sim.batch_no += 1
+            return _orig_pre(*a, **kw)
+
+        preprocess._sim_counted = True
+        bal.preprocess = preprocess
+        patched.append(("synrbl.balancing", "preprocess(counter)"))
     _install_monitoring(sys.modules)
     _installed["patched"] = patched
     _installed["mods"] = mods
